@@ -166,6 +166,9 @@ contract(
     raises=_check_raises,
     modifies=lambda c: [("G.lfiles",), ("G.l444",), ("FileSystem.files", None), ("FileSystem.removed", None), ("HashesCache.table", None)],
     ensures=_check_post_base,
+    # C15: if the process dies after any mutating call of check(), the object is not write-protected unless it was so before or its
+    # bytes match its name (protect must come AFTER the comparison)
+    crash=lambda c: Implies(And(l444(c.h).contains(P(c)), Not(l444(c.h0).contains(P(c)))), goodp(c)),
     props=["C07", "C15"],
     doc="re-hash (through the state cache), compare raw digests, delete on mismatch, protect on success",
 )
@@ -514,3 +517,13 @@ for _cls, _ref in (("State", _StateT), ("StateNoop", _StateNoop)):
         assumed=True, verify=False,
         doc="[not verified; nothing is claimed about the rows add() writes] one transaction of upserts for the paths that exist",
     )
+
+contract(
+    f"{L}:LocalHashFileDB.handle_histories",
+    params={},
+    assumed=True, verify=False,
+    bounded=("bounded/store_tamper.py", 200, 3000),
+    props=["C07", "C12"],
+    doc="[bounded only] what the per-call proofs of check / oids_exist cannot see: state a store handle keeps between calls, objects "
+        "added through another handle, unusual mode bits -- histories of add / query / tamper / query on one handle",
+)
